@@ -352,6 +352,8 @@ partial def loop (h : IO.FS.Stream) (out : IO.FS.Stream) : IO Unit := do
       | .ok s => out.putStrLn s
       | .error e => out.putStrLn s!"bad-op {e}"
     | _ => out.putStrLn "bad-line"
+    -- one answer per request, visible at once (the differential fuzzer talks to the driver interactively)
+    out.flush
     loop h out
 
 end Narsese.Driver
